@@ -169,6 +169,34 @@ def empty_model_case() -> List[str]:
     return bad
 
 
+def repeated_verbatim_case() -> List[str]:
+    """Two symbols may carry the same equation text (a verbatim statement written twice): each must still
+    contribute its own block, in order (concrete program-level assertion; added after seeded change C15_mut1)."""
+    bad = []
+    script = 'Y = X\n`self._Y[t] = self._Y[t] * 2`\nZ = Y\n`self._Y[t] = self._Y[t] * 2`\n'
+    symbols = fsic.parse_model(script)
+    calls: List[Any] = []
+
+    def recording(s):
+        calls.append(s.equation)
+        return s.code
+
+    code = fsic.build_model_definition(symbols, converter=recording)
+    want = [s.equation for s in symbols if s.type in (T.ENDOGENOUS, T.VERBATIM) and s.equation is not None and s.code is not None]
+    if calls != want:
+        bad.append(f'converter calls {calls} != equation symbols in order {want}')
+    if code.count('self._Y[t] = self._Y[t] * 2') != 2:
+        bad.append('a verbatim statement written twice is emitted ' + str(code.count('self._Y[t] = self._Y[t] * 2')) + ' time(s)')
+    for name in ('build', 'exec_definition', 'exec_CODE', 'build_untyped', 'identity_converter'):
+        M, _ = make_variant(symbols, name)
+        m = M(range(3), X=3.0)
+        m._evaluate(1)
+        # symbol-list order: Y = X; Z = Y; then the two verbatim blocks (verbatim symbols come last in the list)
+        if (m.Y[1], m.Z[1]) != (12.0, 3.0):
+            bad.append(f'variant {name}: Y[1], Z[1] = {(m.Y[1], m.Z[1])}, expected (12.0, 3.0)')
+    return bad
+
+
 def main() -> int:
     tier = vlib.tier()
     rep = vlib.Report('C15', 'translation_validation', tier)
@@ -184,6 +212,8 @@ def main() -> int:
     results = run_items(work, items)
     for b in empty_model_case():
         rep.violation('empty-or-equationless:' + b[:40], b, {'case': b})
+    for b in repeated_verbatim_case():
+        rep.violation('repeated-verbatim:' + b[:40], b, {'case': b})
     p0 = (Eq(Var('Y'), Bin('+', Var('X', off=-1), Var('Z'))),)
     tw = [work((p0, 'exec_CODE', 'plus_one')), work((p0, 'wrapper_converter', 'plus_one'))]
     c01_finish(rep, results, tw, {'pool': pool}, tier, extra={
